@@ -29,7 +29,7 @@ CLS_KINDS["Specialization"] = {"Specialization", "Mention"}
 
 
 # local parts that contain a namespace URI again (a URL carried in a query string)
-NESTED_LOCALS = ["r?u=http://a/z", "http://other/x"]
+NESTED_LOCALS = ["r?u=http://a/z", "http://other/x", "vocab"]
 
 
 KNOWN_CAPTURE = "C18:bundle-captures-delegated-name"
